@@ -40,7 +40,7 @@ PROPS = {
         "assumptions": BASE_ASSUME,
         "runs": [
             {"mode": "model", "kinds": KINDS, "profiles": ["tiny", "churn", "recycle", "recycle", "shape", "ranges", "ttl-edge", "loadfactor"],
-             "cases_quick": 400, "cases_thorough": 20000, "trigger_any": bits("HIT_RECYCLED"), "typesets": 7},
+             "cases_quick": 1600, "cases_thorough": 20000, "trigger_any": bits("HIT_RECYCLED"), "typesets": 7},
         ],
     },
     "C02": {
@@ -52,7 +52,7 @@ PROPS = {
         "assumptions": BASE_ASSUME,
         "runs": [
             {"mode": "model", "kinds": KINDS, "profiles": ["tiny", "churn", "recycle", "shape", "ranges", "ttl-edge", "clear", "loadfactor"],
-             "cases_quick": 400, "cases_thorough": 20000, "trigger_any": bits("EVICT", "ERASE_OK", "REAP", "CLEAR_NONEMPTY", "OVERWRITE_EXP"), "typesets": 7},
+             "cases_quick": 1600, "cases_thorough": 20000, "trigger_any": bits("EVICT", "ERASE_OK", "REAP", "CLEAR_NONEMPTY", "OVERWRITE_EXP"), "typesets": 7},
         ],
     },
     "C03": {
@@ -64,7 +64,7 @@ PROPS = {
         "assumptions": BASE_ASSUME,
         "runs": [
             {"mode": "model", "kinds": KINDS, "profiles": ["tiny", "churn", "recycle", "recycle", "shape", "noop", "ttl-edge"], "noinsr": True,
-             "cases_quick": 400, "cases_thorough": 20000, "trigger_any": bits("EVICT_AFTER_GAP", "EVICT_CHAIN3"), "typesets": 7},
+             "cases_quick": 1600, "cases_thorough": 20000, "trigger_any": bits("EVICT_AFTER_GAP", "EVICT_CHAIN3"), "typesets": 7},
             {"mode": "model", "kinds": KINDS, "profiles": ["ranges"], "salt": "r",
              "cases_quick": 100, "cases_thorough": 4000, "trigger_any": bits("EVICT_AFTER_GAP", "EVICT_CHAIN3", "RANGE_OVERCAP"), "typesets": 7},
         ],
@@ -78,7 +78,7 @@ PROPS = {
         "assumptions": BASE_ASSUME,
         "runs": [
             {"mode": "model", "kinds": TTLK, "profiles": ["ttl-edge", "ttl-edge", "ttl-edge", "tiny", "churn", "ranges"],
-             "cases_quick": 900, "cases_thorough": 40000, "trigger_any": bits("MISS_AT_DL", "EXPIRED_LOOKUP"), "typesets": 7},
+             "cases_quick": 3600, "cases_thorough": 40000, "trigger_any": bits("MISS_AT_DL", "EXPIRED_LOOKUP"), "typesets": 7},
         ],
     },
     "C05": {
@@ -90,7 +90,10 @@ PROPS = {
         "assumptions": BASE_ASSUME,
         "runs": [
             {"mode": "model", "kinds": TTLK, "profiles": ["ttl-edge", "ttl-edge", "ttl-edge", "tiny", "churn"], "noinsr": True,
-             "cases_quick": 900, "cases_thorough": 40000, "trigger_any": bits("HIT_BEFORE_DL", "HIT_MOVED_DL"), "typesets": 7},
+             "cases_quick": 3600, "cases_thorough": 40000, "trigger_any": bits("HIT_BEFORE_DL", "HIT_MOVED_DL"), "typesets": 7},
+            # writes through the range forms (per-element TTLs for tlru) must restart the TTL just the same
+            {"mode": "model", "kinds": TTLK, "profiles": ["ttl-edge", "ranges", "ranges"], "salt": "r",
+             "cases_quick": 2000, "cases_thorough": 20000, "trigger_any": bits("HIT_BEFORE_DL", "HIT_MOVED_DL"), "typesets": 7},
         ],
     },
     "C09": {
@@ -102,7 +105,7 @@ PROPS = {
         "assumptions": BASE_ASSUME,
         "runs": [
             {"mode": "model", "kinds": KINDS, "profiles": ["tiny", "churn", "ttl-edge", "ranges", "noop", "shape"],
-             "cases_quick": 400, "cases_thorough": 20000, "trigger_any": bits("REJECT", "UPD_ON_U_TRUE", "UPD_ON_U_FALSE"), "typesets": 7},
+             "cases_quick": 1600, "cases_thorough": 20000, "trigger_any": bits("REJECT", "UPD_ON_U_TRUE", "UPD_ON_U_FALSE"), "typesets": 7},
         ],
     },
     "C10": {
@@ -113,7 +116,7 @@ PROPS = {
         "assumptions": BASE_ASSUME,
         "runs": [
             {"mode": "model", "kinds": ["lru", "tlru", "utlru"], "profiles": ["shape", "shape", "recycle", "churn", "tiny", "noop"], "noinsr": True,
-             "cases_quick": 1200, "cases_thorough": 60000, "trigger_any": bits("EVICT_NONTRIV"), "typesets": 7},
+             "cases_quick": 4800, "cases_thorough": 60000, "trigger_any": bits("EVICT_NONTRIV"), "typesets": 7},
         ],
     },
     "C11": {
@@ -124,9 +127,9 @@ PROPS = {
         "assumptions": BASE_ASSUME,
         "runs": [
             {"mode": "model", "kinds": ["lfu", "lfuda"], "profiles": ["shape", "shape", "recycle", "churn", "tiny", "noop"], "noinsr": True,
-             "cases_quick": 1500, "cases_thorough": 60000, "trigger_any": bits("LFU_MULTI"), "typesets": 7},
+             "cases_quick": 6000, "cases_thorough": 60000, "trigger_any": bits("LFU_MULTI"), "typesets": 7},
             {"mode": "model", "kinds": ["lfu", "lfuda"], "profiles": ["ranges"], "salt": "r",
-             "cases_quick": 300, "cases_thorough": 10000, "trigger_any": bits("LFU_MULTI", "CNT3"), "typesets": 7},
+             "cases_quick": 1200, "cases_thorough": 10000, "trigger_any": bits("LFU_MULTI", "CNT3"), "typesets": 7},
         ],
     },
     "C12": {
@@ -137,7 +140,7 @@ PROPS = {
         "assumptions": BASE_ASSUME,
         "runs": [
             {"mode": "model", "kinds": ["fifo"], "profiles": ["recycle", "recycle", "shape", "churn", "tiny"], "noinsr": True,
-             "cases_quick": 3000, "cases_thorough": 150000, "trigger_any": bits("EVICT_AFTER_GAP", "EVICT_VICTIM_UPD"), "typesets": 7},
+             "cases_quick": 12000, "cases_thorough": 150000, "trigger_any": bits("EVICT_AFTER_GAP", "EVICT_VICTIM_UPD"), "typesets": 7},
         ],
     },
     "C13": {
@@ -148,7 +151,7 @@ PROPS = {
         "assumptions": BASE_ASSUME,
         "runs": [
             {"mode": "model", "kinds": ["mru"], "profiles": ["shape", "shape", "recycle", "churn", "tiny", "noop"], "noinsr": True,
-             "cases_quick": 3000, "cases_thorough": 150000, "trigger_any": bits("EVICT_VICTIM_UPD", "MRU_NEXT"), "typesets": 7},
+             "cases_quick": 12000, "cases_thorough": 150000, "trigger_any": bits("EVICT_VICTIM_UPD", "MRU_NEXT"), "typesets": 7},
         ],
     },
     "C14": {
@@ -160,9 +163,9 @@ PROPS = {
         "assumptions": BASE_ASSUME,
         "runs": [
             {"mode": "model", "kinds": ["lfuda"], "profiles": ["aging", "aging", "aging", "shape", "churn", "tiny"], "noinsr": True,
-             "cases_quick": 3000, "cases_thorough": 150000, "trigger_any": bits("AGING_PARTIAL", "AGING_IN_INSERT"), "typesets": 7},
+             "cases_quick": 12000, "cases_thorough": 150000, "trigger_any": bits("AGING_PARTIAL", "AGING_IN_INSERT"), "typesets": 7},
             {"mode": "model", "kinds": ["lfuda"], "profiles": ["aging", "ranges"], "salt": "r",
-             "cases_quick": 500, "cases_thorough": 20000, "trigger_any": bits("AGING_PARTIAL", "AGING_IN_INSERT"), "typesets": 7},
+             "cases_quick": 2000, "cases_thorough": 20000, "trigger_any": bits("AGING_PARTIAL", "AGING_IN_INSERT"), "typesets": 7},
         ],
     },
     "C15": {
@@ -174,7 +177,7 @@ PROPS = {
         "assumptions": BASE_ASSUME + ["spread is a statistical statement with stated thresholds, not a proof of uniformity"],
         "runs": [
             {"mode": "model", "kinds": ["rr"], "profiles": ["churn", "recycle", "tiny", "shape"], "noinsr": True,
-             "cases_quick": 2000, "cases_thorough": 100000, "trigger_any": bits("EVICT_AFTER_GAP", "EVICT_CHAIN3"), "typesets": 7},
+             "cases_quick": 8000, "cases_thorough": 100000, "trigger_any": bits("EVICT_AFTER_GAP", "EVICT_CHAIN3"), "typesets": 7},
             {"mode": "model", "kinds": ["rr"], "profiles": ["spread"], "noinsr": True, "salt": "s", "nops": (1800, 2600), "nops_thorough": (1800, 6000),
              "cases_quick": 160, "cases_thorough": 5000, "trigger_any": bits("EVICT_CHAIN3"), "typesets": 1},
         ],
@@ -187,7 +190,7 @@ PROPS = {
         "assumptions": BASE_ASSUME,
         "runs": [
             {"mode": "model", "kinds": ["tlru", "utlru"], "profiles": ["ttl-edge", "ttl-edge", "churn", "tiny"], "noinsr": True,
-             "cases_quick": 2500, "cases_thorough": 100000, "trigger_any": bits("EVICT_MIXED"), "typesets": 7},
+             "cases_quick": 10000, "cases_thorough": 100000, "trigger_any": bits("EVICT_MIXED"), "typesets": 7},
         ],
     },
     "C17": {
@@ -198,7 +201,7 @@ PROPS = {
         "assumptions": BASE_ASSUME,
         "runs": [
             {"mode": "model", "kinds": TTLK, "profiles": ["ttl-edge", "ttl-edge", "churn", "tiny", "ranges"],
-             "cases_quick": 1200, "cases_thorough": 50000, "trigger_any": bits("CLEAN_MIXED"), "typesets": 7},
+             "cases_quick": 4800, "cases_thorough": 50000, "trigger_any": bits("CLEAN_MIXED"), "typesets": 7},
         ],
     },
     "C18": {
@@ -210,7 +213,7 @@ PROPS = {
         "assumptions": BASE_ASSUME + ["twins are two instances of the same build; rr twins share the injected random_device seed"],
         "runs": [
             {"mode": "twin-range", "kinds": KINDS, "profiles": ["ranges", "ranges", "tiny", "ttl-edge", "shape"],
-             "cases_quick": 400, "cases_thorough": 20000, "trigger_any": 1 << TWIN_BIT, "typesets": 7},
+             "cases_quick": 1600, "cases_thorough": 20000, "trigger_any": 1 << TWIN_BIT, "typesets": 7},
         ],
     },
     "C19": {
@@ -222,7 +225,7 @@ PROPS = {
         "assumptions": BASE_ASSUME + ["twins are two instances of the same build; rr twins share the injected random_device seed"],
         "runs": [
             {"mode": "twin-noop", "kinds": KINDS, "profiles": ["tiny", "churn", "shape", "ttl-edge", "aging", "recycle"],
-             "cases_quick": 400, "cases_thorough": 20000, "trigger_any": 1 << TWIN_BIT, "typesets": 7},
+             "cases_quick": 1600, "cases_thorough": 20000, "trigger_any": 1 << TWIN_BIT, "typesets": 7},
         ],
     },
     "C20": {
@@ -234,7 +237,7 @@ PROPS = {
         "assumptions": BASE_ASSUME,
         "runs": [
             {"mode": "twin-clear", "kinds": ["utlru", "ut_map"], "profiles": ["clear", "ttl-edge", "churn", "tiny", "ranges"],
-             "cases_quick": 2500, "cases_thorough": 100000, "trigger_all": bits("CLEAR_NONEMPTY") | (1 << TWIN_BIT), "typesets": 7},
+             "cases_quick": 10000, "cases_thorough": 100000, "trigger_all": bits("CLEAR_NONEMPTY") | (1 << TWIN_BIT), "typesets": 7},
         ],
     },
     "C08": {
